@@ -34,7 +34,9 @@ m = dict(
         guard="cfg(kani) / cfg(cryptoxide_verif)",
         enable="no source hooks are committed to /repo: every check copies /repo's working tree to a scratch directory and appends "
                "`#[cfg(any(kani, all(cryptoxide_verif, test)))] #[path=\"/verif/harness/incrate/<m>.rs\"] mod verif_<m>;` lines to the modules whose "
-               "private items the harnesses need (runner/overlay.py); Kani sets cfg(kani), native replay builds with RUSTFLAGS=--cfg cryptoxide_verif",
+               "private items the harnesses need (runner/overlay.py, runner/reg/*.py); the same mechanism mounts source files the default build does not compile "
+               "(chacha/reference.rs as `reference_verif`, sha2/impl256/sse41.rs and avx.rs) so that they can be checked next to the default paths; "
+               "Kani sets cfg(kani), native replay builds with RUSTFLAGS=--cfg cryptoxide_verif; mirsym reads the MIR of the unmodified scratch copy",
         baseline_off_cmd="cd /repo && cargo test --workspace --no-fail-fast --offline",
         source_commits=[],
         add_only=True),
